@@ -23,7 +23,6 @@ import (
 	"log"
 	"os"
 	"os/exec"
-	"runtime"
 	"runtime/debug"
 	"strconv"
 	"strings"
@@ -424,24 +423,10 @@ func runAll(ks []*Case, workers int, s *sink, force bool) []result {
 	return out
 }
 
-// defaultWorkers: 12 on a quiet machine, fewer when the machine is already oversubscribed (the
-// verdicts do not depend on timing, only the run time does).
-func defaultWorkers() int {
-	w := 12
-	if b, err := os.ReadFile("/proc/loadavg"); err == nil {
-		var l1 float64
-		if _, err := fmt.Sscan(string(b), &l1); err == nil {
-			cpus := float64(runtime.NumCPU())
-			switch {
-			case l1 > 3*cpus:
-				w = 3
-			case l1 > 1.5*cpus:
-				w = 6
-			}
-		}
-	}
-	return w
-}
+// defaultWorkers: most cases wait (a retried webhook sleeps a second), so the number of workers is
+// not tied to the load of the machine; after the death of a worker process the supervisor asks
+// for fewer (VERIF_C17_WORKERS).
+func defaultWorkers() int { return 12 }
 
 // supervise runs the actual work in a child process (this binary with -child) and restarts it,
 // continuing after the lines already written, when it ends abnormally: killed by the kernel's
